@@ -42,14 +42,18 @@ size_t libwifi_get_probe_resp_length(struct libwifi_probe_resp *probe_resp) {
 int libwifi_set_probe_resp_ssid(struct libwifi_probe_resp *probe_resp, const char *ssid) {
     int ret = 0;
 
-    if (probe_resp->tags.length != 0) {
-        ret = libwifi_remove_tag(&probe_resp->tags, TAG_SSID);
-        if (ret != 0) {
-            return ret;
-        }
-    }
+    // The new tag is added before the old one is removed, so that a failed
+    // allocation leaves the existing tag in place
+    int had_tag = (probe_resp->tags.length != 0) && (libwifi_check_tag(&probe_resp->tags, TAG_SSID) > 0);
 
     ret = libwifi_quick_add_tag(&probe_resp->tags, TAG_SSID, (const unsigned char *) ssid, strlen(ssid));
+    if (ret != 0) {
+        return ret;
+    }
+
+    if (had_tag) {
+        ret = libwifi_remove_tag(&probe_resp->tags, TAG_SSID);
+    }
 
     return ret;
 }
@@ -60,16 +64,20 @@ int libwifi_set_probe_resp_ssid(struct libwifi_probe_resp *probe_resp, const cha
 int libwifi_set_probe_resp_channel(struct libwifi_probe_resp *probe_resp, uint8_t channel) {
     int ret = 0;
 
-    if (probe_resp->tags.length != 0) {
-        ret = libwifi_remove_tag(&probe_resp->tags, TAG_DS_PARAMETER);
-        if (ret != 0) {
-            return ret;
-        }
-    }
+    // The new tag is added before the old one is removed, so that a failed
+    // allocation leaves the existing tag in place
+    int had_tag = (probe_resp->tags.length != 0) && (libwifi_check_tag(&probe_resp->tags, TAG_DS_PARAMETER) > 0);
 
     const unsigned char *chan = (const unsigned char *) &channel;
 
     ret = libwifi_quick_add_tag(&probe_resp->tags, TAG_DS_PARAMETER, chan, 1);
+    if (ret != 0) {
+        return ret;
+    }
+
+    if (had_tag) {
+        ret = libwifi_remove_tag(&probe_resp->tags, TAG_DS_PARAMETER);
+    }
 
     return ret;
 }
